@@ -83,7 +83,7 @@ def build_engine(name, quiet=False):
     spec = ENGINES[name]
     key = tree_hash([os.path.join(REPO, "include"), os.path.join(VERIF, "sim", "core"), os.path.join(VERIF, "sim", name)])
     key = hashlib.sha256((key + repr(spec) + repr(COMMON) + CXX).encode()).hexdigest()[:16]
-    broot = BUILD_SCRATCH if os.environ.get("VERIF_SCRATCH") else BUILD
+    broot = BUILD_SCRATCH if (os.environ.get("VERIF_SCRATCH") and os.environ.get("VERIF_REPO")) else BUILD
     bdir = os.path.join(broot, "%s-%s" % (name, key))
     exe = os.path.join(bdir, "sim_" + name)
     if os.path.exists(exe):
